@@ -2,6 +2,7 @@
 input."""
 from __future__ import annotations
 
+import json
 import warnings
 
 import numpy as np
@@ -281,6 +282,36 @@ def add_tags(draw, spec):
     return spec
 
 
+def add_minus_one_two_gadget(draw, spec):
+    """sibling nodes that differ only in a constant -1 vs -2 (in CPython
+    hash(-1) == hash(-2): whatever tells them apart by hash alone, or forgets
+    the constant in ==, merges them): a one-sided stencil"""
+    nodes = spec["nodes"]
+    k = len(nodes)
+    nodes.append({"op": "placeholder", "p": {
+        "name": "stencil_u", "shape": [5], "dtype": "float64", "scale": 0,
+        "values": [draw(st.integers(-9, 9)) for _ in range(5)]}})
+    how = draw(st.sampled_from(["roll", "sub", "both"]))
+    outs = []
+    if how in ("roll", "both"):
+        nodes.append({"op": "roll", "args": [["n", k]],
+                      "p": {"shift": -1, "axis": 0}})
+        nodes.append({"op": "roll", "args": [["n", k]],
+                      "p": {"shift": -2, "axis": 0}})
+        nodes.append({"op": "sub", "args": [["n", len(nodes) - 2],
+                                            ["n", len(nodes) - 1]]})
+        outs.append(len(nodes) - 1)
+    if how in ("sub", "both"):
+        nodes.append({"op": "add", "args": [["n", k], ["py", -1]]})
+        nodes.append({"op": "add", "args": [["n", k], ["py", -2]]})
+        nodes.append({"op": "mul", "args": [["n", len(nodes) - 2],
+                                            ["n", len(nodes) - 1]]})
+        outs.append(len(nodes) - 1)
+    spec["outputs"] = list(spec["outputs"]) + [
+        [f"stencil{j}", i] for j, i in enumerate(outs)]
+    return spec
+
+
 def add_layout_gadget(draw, spec):
     """two data wrappers that are views of ONE buffer with the same start
     address, shape and dtype but (for kinds T / step) different strides,
@@ -371,6 +402,8 @@ def cases(draw):
     spec = add_tags(draw, spec)
     if draw(st.integers(0, 3)) == 0:
         spec = add_layout_gadget(draw, spec)
+    if draw(st.integers(0, 7)) == 0:
+        spec = add_minus_one_two_gadget(draw, spec)
     n = draw(st.integers(1, 4))
     pipeline = [draw(st.sampled_from(TNAMES)) for _ in range(n)]
     return {"spec": spec, "pipeline": pipeline}, vals
@@ -446,3 +479,30 @@ def minimize(case, fj):
     best = {"spec": small, "pipeline": best["pipeline"]}
     f = replay(best)
     return best, (f.to_json() if f is not None else fj)
+
+
+def _known_mpms_tagged_twin(case, failure) -> bool:
+    """an untagged node that is structurally equal to a node pre-tagged
+    ImplStored: the failure disappears when the twin carries the tag too"""
+    import copy
+    spec = case["spec"]
+    nodes = spec["nodes"]
+
+    def sig(n):
+        return json.dumps({k: v for k, v in n.items() if k != "tags"},
+                          sort_keys=True)
+    c = copy.deepcopy(case)
+    hit = False
+    for i, a in enumerate(nodes):
+        if ["ImplStored"] not in a.get("tags", []):
+            continue
+        for j, b in enumerate(nodes):
+            if j != i and sig(a) == sig(b) and ["ImplStored"] not in b.get(
+                    "tags", []):
+                c["spec"]["nodes"][j].setdefault("tags", []).append(
+                    ["ImplStored"])
+                hit = True
+    return hit and replay(c) is None
+
+
+KNOWN_PREDICATES = {"mpms_tagged_twin": _known_mpms_tagged_twin}
